@@ -28,7 +28,10 @@ EXPLANATION = (
     "_maxSize, and every return of shutdown() is behind the join, a wait, or a mutex the joining caller holds (known finding: second shutdown()); "
     "R11 every unconditional spawn site (constructor, start(): a spawnWorker() call that is not behind the thread-cap test) is reached only after the creating function itself stored false into "
     "_shutdown (or initialised it so) on every path — a worker created while the flag is still set takes the shutdown exit at once and leaves a dead entry in the worker map. "
-    "R2, R5, R9, R10, R11 follow calls into the pool's private helpers (a helper 'does X' when all its paths do; a helper's constant results are tabulated against the event they report; bool locals that carry "
+    "R12 once a task is queued, whether a worker is spawned for it depends only on the capacity test `_threads.size() < _maxSize` (and the shutdown/accepting state): every further conjunct between the push and "
+    "the spawnWorker() call is collected by dataflow; one that reads a counter the worker loop writes is an idleness estimate and is a violation when the worker lowers that counter before the finished task object "
+    "(and its captures, whose destructors are user code that may submit and wait) is destroyed — any other estimate or unclassified conjunct is a refusal. "
+    "R2, R5, R9, R10, R11, R12 follow calls into the pool's private helpers (a helper 'does X' when all its paths do; a helper's constant results are tabulated against the event they report; bool locals that carry "
     "such a result are followed as atoms).  R3, R4, R8 follow the worker's task, wait and lock into local lambdas of the worker body that receive them by reference.")
 # exempt from the function-inventory guard (report.py): these rules hold for, or look into, functions they have never seen
 FOLLOWS_HELPERS = {"C09-R1": "universal: every access to a guarded field is judged where it is, with the entry lock set of a private helper taken from its call sites",
@@ -36,7 +39,8 @@ FOLLOWS_HELPERS = {"C09-R1": "universal: every access to a guarded field is judg
                    "C09-R5": "the removal of a worker entry from _threads is followed into helpers; a helper's result decides the ghost (result_table)",
                    "C09-R9": "refusal exits are expanded into the helper whose result decides them; lock, push, spawn and notify are counted over the helpers the submit function calls",
                    "C09-R10": "spawn sites are enumerated over every named function of the class; the cap test is followed through bool locals and helper parameters (on_demand_spawn)",
-                   "C09-R11": "spawn sites are enumerated over every named function of the class; a store of the flag inside a helper counts when all its paths make it (flag_abs)"}
+                   "C09-R11": "spawn sites are enumerated over every named function of the class; a store of the flag inside a helper counts when all its paths make it (flag_abs)",
+                   "C09-R12": "the conditions of the spawn after the push are collected through bool locals, helper parameters, out-parameters and helper results (spawn_decision); a conjunct it cannot follow is a refusal"}
 NOT_DECIDED = ["the polling drains (`_activeThreads == 0 && pending == 0` sampled with sleeps) — timing; the joins of R5 carry the 'returns only after every accepted task finished' clause",
                "fairness between workers", "the instrumentation counters"]
 
@@ -396,33 +400,12 @@ def _worker_abs(ctx):
     return w, waits
 
 
-def r3(ctx, r):
-    la = ctx.locks()
-    w, waits = _worker_abs(ctx)
-    fronts = [e for e in w.stmts() if tasks_call(e.node, ("front",))]
-    pops = [e for e in w.stmts() if tasks_call(e.node, ("pop", "pop_front"))]
-    r.instance()
-    if len(fronts) != 1 or len(pops) != 1:
-        r.fail(w, None, "dequeue shape", "the worker does not take tasks with exactly one front()+pop() (found %d/%d)" % (len(fronts), len(pops)))
-        return
-    ok, wit = common.same_section(w, la, fronts[0], pops[0], M)
-    r.expect(ok and elem_dominates(w, fronts[0], pops[0]), w, pops[0], "dequeue not atomic", "front() and pop() are not one critical section: two workers can take the same task, or a task is popped unread",
-             witness=wit, okdesc="worker: front()+pop() in one _mutex section")
-    # nobody else takes tasks out of the queue: the only other remover is reset(), which requires the Stopped state
-    for g in ctx.fb().in_file(FILE):
-        if not g.ok or g is w or not (g.cls == TP or g.name.startswith(TP + "::")):
-            continue
-        for e in g.stmts():
-            m = tasks_call(e.node, ("pop", "pop_front", "pop_back", "clear", "swap", "erase"))
-            if not m:
-                continue
-            r.instance()
-            owner = g.enclosing.name if g.kind == "lambda" and g.enclosing is not None else g.name
-            r.expect(owner == TP + "::reset", g, e, "task removed without being run", "%s removes a queued task with _tasks.%s(): an accepted task leaves the queue without being executed (its future, if any, reports "
-                     "broken_promise) — and std::queue::pop() removes the OLDEST entry, not the one just added" % (short(g.name), m), okdesc="reset(): queue cleared only in the Stopped state")
+def _task_holder(w, front):
+    """(front node, decl id of the task local, is_task, invocations in the worker, runner, is_rt, invocations in the runner) — shared by
+    R3 and R12: which local of the worker holds the dequeued task, and which function (the worker or a local lambda) runs it"""
     # the local that holds the dequeued task is the one that receives `_tasks.front()` (assignment or initialiser) — identified by
     # dataflow, not by its name
-    fr, td = fronts[0].node, None
+    fr, td = front.node, None
     for e in w.stmts():
         n = e.node
         if n.get("k") == "opcall" and n.get("op") == "=" and len(n["args"]) == 2 and any(x is fr for x in walk(n["args"][1])):
@@ -456,6 +439,34 @@ def r3(ctx, r):
                           init=And(Not(A("ran")), Not(A("twice"))), eh_after=True)
             if rcalls and rpa.exit_entails(And(A("ran"), Not(A("twice")))):
                 calls = [ce]
+    return fr, td, is_task, calls, runner, is_rt, rcalls
+
+
+def r3(ctx, r):
+    la = ctx.locks()
+    w, waits = _worker_abs(ctx)
+    fronts = [e for e in w.stmts() if tasks_call(e.node, ("front",))]
+    pops = [e for e in w.stmts() if tasks_call(e.node, ("pop", "pop_front"))]
+    r.instance()
+    if len(fronts) != 1 or len(pops) != 1:
+        r.fail(w, None, "dequeue shape", "the worker does not take tasks with exactly one front()+pop() (found %d/%d)" % (len(fronts), len(pops)))
+        return
+    ok, wit = common.same_section(w, la, fronts[0], pops[0], M)
+    r.expect(ok and elem_dominates(w, fronts[0], pops[0]), w, pops[0], "dequeue not atomic", "front() and pop() are not one critical section: two workers can take the same task, or a task is popped unread",
+             witness=wit, okdesc="worker: front()+pop() in one _mutex section")
+    # nobody else takes tasks out of the queue: the only other remover is reset(), which requires the Stopped state
+    for g in ctx.fb().in_file(FILE):
+        if not g.ok or g is w or not (g.cls == TP or g.name.startswith(TP + "::")):
+            continue
+        for e in g.stmts():
+            m = tasks_call(e.node, ("pop", "pop_front", "pop_back", "clear", "swap", "erase"))
+            if not m:
+                continue
+            r.instance()
+            owner = g.enclosing.name if g.kind == "lambda" and g.enclosing is not None else g.name
+            r.expect(owner == TP + "::reset", g, e, "task removed without being run", "%s removes a queued task with _tasks.%s(): an accepted task leaves the queue without being executed (its future, if any, reports "
+                     "broken_promise) — and std::queue::pop() removes the OLDEST entry, not the one just added" % (short(g.name), m), okdesc="reset(): queue cleared only in the Stopped state")
+    fr, td, is_task, calls, runner, is_rt, rcalls = _task_holder(w, fronts[0])
     vocab = Vocab(["have", "ran", "twice", "nonempty"])
 
     def leaf(n):
@@ -1309,6 +1320,249 @@ def r10(ctx, r):
              "running and no worker has been joined" % witness_str(sd, w), okdesc="shutdown(): every return is behind the join, a wait, or the callers' serialising mutex")
 
 
+# ------------------------------------------------------------------ R12: the spawn decision for a task that was just accepted
+# A necessary condition of "an accepted task gets a worker": once the task is in the queue, whether a worker is created for it may
+# depend on the capacity test `_threads.size() < _maxSize` and on the shutdown / accepting state only.  Every further conjunct is
+# collected by dataflow from the push to the spawnWorker() call (branches the call is control-dependent on, bool locals by their
+# definitions, helper parameters by the arguments of their call sites, helper results by their returns) and judged by what it READS:
+# a counter the worker loop writes makes it an idleness estimate ("some worker is free, no thread needed") — and that estimate is
+# wrong whenever the worker lowers the counter while it still runs user code, i.e. before the task object and its captures are
+# destroyed.
+
+def _members_read(c):
+    return sorted({x["n"]: x for x in walk(c) if x.get("k") == "member" and (x.get("n") or "").startswith(TP + "::")}.items())
+
+
+def _counter_op(n):
+    """(field, '+' | '-' | '=') when the root node n writes an (atomic) member counter, else None"""
+    k = n.get("k")
+    if k == "opcall" and n.get("args"):
+        fld, op = field_of(n["args"][0]), n.get("op")
+        kind = "+" if op in ("++", "+=") else "-" if op in ("--", "-=") else "=" if op in ("=", "|=", "&=", "^=", "*=", "/=") else None
+    elif k == "mcall":
+        fld, m = field_of(n.get("obj")), last(n.get("callee", ""))
+        kind = "+" if m == "fetch_add" else "-" if m == "fetch_sub" else "=" if m in ("store", "exchange", "compare_exchange_weak", "compare_exchange_strong") else None
+    elif k == "un" and ("++" in n.get("op", "") or "--" in n.get("op", "")):
+        fld, kind = field_of(n.get("v")), "+" if "++" in n["op"] else "-"
+    elif k == "bin" and n.get("op", "").endswith("=") and n["op"] not in ("==", "!=", "<=", ">="):
+        fld, kind = field_of(n.get("lhs")), "+" if n["op"] == "+=" else "-" if n["op"] == "-=" else "="
+    else:
+        return None
+    return (fld, kind) if fld and kind and fld.startswith(TP + "::") else None
+
+
+def worker_writes(ctx):
+    """{member: [(function, element, '+' | '-' | '=' | '?')]}: what the worker loop (its body and the local lambdas of it) writes"""
+    w = worker(ctx)
+    out = {}
+    for g in [w] + [lf for (_, lf) in w.lambdas if lf.ok]:
+        seen = set()
+        for e in g.stmts():
+            co = _counter_op(e.node)
+            if co is not None:
+                if not any(y.get("id") in seen for y in walk(e.node)):      # (the root of a write, not its sub-expressions again)
+                    out.setdefault(co[0], []).append((g, e, co[1]))
+                seen.update(y["id"] for y in walk(e.node) if "id" in y)
+        for x in g.nodes.values():        # any other kind of write (container mutators, …): recorded as unclassified
+            if x.get("k") == "member" and (x.get("n") or "").startswith(TP + "::") and x["id"] not in seen and access.classify(g, x) in ("write", "rw"):
+                out.setdefault(x["n"], []).append((g, g.elem_for(x), "?"))
+    return out
+
+
+def spawn_decision(ctx, f):
+    """[(function, condition node, truth, element it decides)]: the atomic conditions on which — after the task was queued — the
+    spawnWorker() call of submit function f depends.  Facts that already dominate the push are acceptance tests, not part of it."""
+    cg = ctx.cg()
+    sw = fn(ctx, "spawnWorker")
+    scope = [f] + [h for h in helpers_from(ctx, f) if h.name != sw.name]
+    spawns = [(g, e) for g in scope for e in g.stmts() if is_spawn(e)]
+    if len(spawns) != 1:
+        raise AnalysisBroken("%s: %d spawnWorker() calls on the submit path" % (short(f.name), len(spawns)))
+    out, busy = [], set()
+
+    def local_facts(g, e):
+        """facts that dominate e in g and are not already established when the task is pushed (in g or in a helper called from g)"""
+        pp = may(ctx, g, is_push)
+        excl = None
+        for p_ in pp:
+            ids = {c["id"] for (c, t) in finite.dominating_facts(g, p_)}
+            excl = ids if excl is None else excl & ids
+        return [(c, t) for (c, t) in finite.dominating_facts(g, e) if c["id"] not in (excl or ())]
+
+    def reach(g, e, depth):
+        """everything that decides whether element e of g is executed: the facts in g, then those at g's call sites up to f"""
+        key = (g.name, e.block.id, e.idx)
+        if key in busy:
+            return
+        busy.add(key)
+        for (c, t) in local_facts(g, e):
+            expand(g, c, t, e, depth)
+        if g is not f:
+            sites = [(cf, ce) for (cf, ce, cn) in cg.callers.get(g.name, []) if any(cf is x for x in scope) and ce is not None]
+            if not sites:
+                raise AnalysisBroken("%s: no call site of %s on the submit path" % (short(f.name), short(g.name)))
+            for (cf, ce) in sites:
+                reach(cf, ce, depth)
+
+    def definition(g, x, rhs, t, depth):
+        """one definition `v = rhs` at element x: the value t of v comes from there only if rhs has it and x is executed"""
+        cv = const_value(strip_casts(rhs)) if rhs is not None else None
+        if cv in (0, 1):
+            if bool(cv) == t:
+                for (c, t2) in local_facts(g, x):
+                    expand(g, c, t2, x, depth - 1)
+            return
+        if rhs is None:
+            out.append((g, {"k": "?", "id": -1}, t, x))
+            return
+        for (c, t2) in finite.flatten_fact(rhs, t):
+            expand(g, c, t2, x, depth - 1)
+
+    def expand(g, c, t, at, depth):
+        c = strip_casts(c)
+        if depth <= 0 or c is None:
+            out.append((g, c or {"k": "?", "id": -1}, t, at))
+            return
+        if c.get("k") == "var" and finite._ty(c.get("t")) == "bool":
+            if c.get("parm") is not None:
+                sites = [(cf, ce, cn) for (cf, ce, cn) in cg.callers.get(g.name, []) if any(cf is x for x in scope)]
+                if not (g.params[c["parm"]].get("t") or "").strip().endswith("&") and sites and g.kind != "lambda" and all(len(cn.get("args", [])) > c["parm"] for (_, _, cn) in sites):
+                    for (cf, ce, cn) in sites:
+                        for (c2, t2) in finite.flatten_fact(cn["args"][c["parm"]], t):
+                            expand(cf, c2, t2, ce, depth - 1)
+                    return
+                out.append((g, c, t, at))
+                return
+            d, n0 = c.get("d"), len(out)
+            found = False
+            for x in g.stmts():
+                n = x.node
+                if n.get("k") == "decl":
+                    for v in n["vars"]:
+                        if v["d"] == d:
+                            found = True
+                            definition(g, x, v.get("init"), t, depth)
+                elif n.get("k") in ("bin", "un"):
+                    l = strip_casts(n.get("lhs") or n.get("v") or {})
+                    if l is not None and l.get("k") == "var" and l.get("d") == d and l.get("parm") is None and access.classify(g, l) != "read":
+                        definition(g, x, n["rhs"] if n.get("k") == "bin" and n["op"] == "=" else None, t, depth)
+                elif n.get("k") in ("call", "mcall", "ctor"):
+                    h = helper(ctx, n)
+                    for j, a in enumerate(n.get("args", [])):
+                        a = strip_wrappers(a)
+                        if a is None or a.get("k") != "var" or a.get("d") != d or a.get("parm") is not None:
+                            continue
+                        pt = ((h.params[j].get("t") or "") if h is not None and j < len(h.params) else "?").strip()
+                        if (not pt.endswith("&") and pt != "?") or pt.startswith("const "):
+                            continue          # by value / const reference: read only
+                        if h is None:
+                            out.append((g, c, t, x))      # written by a function this rule cannot look into
+                            continue
+                        for he in h.stmts():          # out-parameter of a helper: its assignments inside the helper
+                            hn = he.node
+                            if hn.get("k") in ("bin", "un"):
+                                hl = strip_casts(hn.get("lhs") or hn.get("v") or {})
+                                if hl is not None and hl.get("k") == "var" and hl.get("parm") == j and access.classify(h, hl) != "read":
+                                    definition(h, he, hn["rhs"] if hn.get("k") == "bin" and hn["op"] == "=" else None, t, depth)
+                            elif hn.get("k") in ("call", "mcall", "ctor") and any((strip_wrappers(y) or {}).get("parm") == j and (strip_wrappers(y) or {}).get("k") == "var" for y in hn.get("args", [])):
+                                out.append((h, hn, t, he))
+            if not found:
+                out.append((g, c, t, at))
+            return
+        h = helper(ctx, c)
+        if h is not None and finite._ty(c.get("t")) == "bool":
+            for x in common.returns(h):
+                definition(h, x, x.node.get("v"), t, depth)
+            return
+        # a helper's result compared with a constant (`admit(...) != Accepted`, also through a once-initialised local): the fact
+        # stands for the helper's returns of the constants that give the comparison this value, and for what decides those returns
+        for (op, a, b) in common.cmp_both(c):
+            k, h = const_value(strip_casts(b)), helper(ctx, through_locals(g, a))
+            if op in ("==", "!=") and k is not None and h is not None:
+                rets = common.returns(h)
+                if rets and all(const_value(strip_casts(x.node.get("v") or {})) is not None for x in rets):
+                    for x in rets:
+                        if ((const_value(strip_casts(x.node["v"])) == k) == (op == "==")) == t:
+                            for (c2, t2) in local_facts(h, x):
+                                expand(h, c2, t2, x, depth - 1)
+                    return
+        out.append((g, c, t, at))
+    reach(spawns[0][0], spawns[0][1], 6)
+    return spawns[0], out
+
+
+def r12(ctx, r):
+    """after the push, the spawn decision is the capacity test (and the shutdown state) only; an idleness estimate over a counter the
+    worker lowers before it has destroyed the finished task strands a task submitted from a destructor of that task's captures"""
+    ww = worker_writes(ctx)
+    w = worker(ctx)
+    fronts = [e for e in w.stmts() if tasks_call(e.node, ("front",))]
+    if len(fronts) != 1:
+        raise AnalysisBroken("worker: %d reads of _tasks.front()" % len(fronts))
+    fr, td, is_task, calls, runner, is_rt, rcalls = _task_holder(w, fronts[0])
+    # where the finished task object (the closure and everything it captured) is destroyed: the task local is overwritten
+    rel = [e for e in runner.stmts() if e.node.get("k") == "opcall" and e.node.get("op") == "=" and is_rt(strip_wrappers(e.node["args"][0])) and not any(x is fr for x in walk(e.node))]
+
+    def state_only(c):
+        """reads only flags / state enums of the pool that the worker never writes (`_shutdown`, `_accepting`, a state enum)"""
+        ms = _members_read(c)
+        return bool(ms) and all(n not in ww and (finite._ty(strip_atomic(m.get("t"))) == "bool" or is_enum(m.get("t"))) for (n, m) in ms) and \
+            not any(x.get("k") in ("call", "mcall") and last(x.get("callee", "")) not in ("load", "operator bool", "operator std::__atomic_base::__int_type", "operator __int_type") and not last(x.get("callee", "")).startswith("operator ") for x in walk(c))
+
+    def strip_atomic(t):
+        t = (t or "").replace("const ", "").replace("volatile ", "").strip()
+        for pre in ("std::atomic<", "std::__atomic_base<"):
+            if t.startswith(pre) and t.endswith(">"):
+                return t[len(pre):-1].strip()
+        return "bool" if t == "std::atomic_bool" else t
+
+    def is_enum(t):
+        t = strip_atomic(t)
+        return any(x.get("k") == "enum" and (x.get("t") or "").replace("const ", "") == t for g in (fn(ctx, "tryEnqueueImpl"), fn(ctx, "shutdown")) for x in g.nodes.values()) or t.startswith("enum ")
+
+    for nm in ("tryEnqueueImpl", "enqueueImpl"):
+        f = fn(ctx, nm)
+        (sg, se), atoms = spawn_decision(ctx, f)
+        caps = [a for a in atoms if cap_fact(a[1], a[2])]
+        r.instance()
+        if not caps:
+            raise AnalysisBroken("%s: the capacity test `_threads.size() < _maxSize` was not found among the conditions of the spawnWorker() call after the push" % nm)
+        seen = set()
+        for (g, c, t, at) in atoms:
+            key = (g.name, c.get("id"), t)
+            if key in seen or cap_fact(c, t):
+                continue
+            seen.add(key)
+            est = [n for (n, m) in _members_read(c) if n in ww]
+            # (the queue and the worker map are written by the worker too, but under the pool lock the submitter holds: their sizes
+            # are exact here; only the lock-free counters are estimates.  A conjunct over them without a counter is not classified.)
+            ctr = [n for n in est if any(k in ("+", "-", "=") for (_, _, k) in ww[n])]
+            if ctr:
+                for n in ctr:
+                    drops = [(wg, we) for (wg, we, k) in ww[n] if k in ("-", "=", "?")]
+                    if not drops or not rel or any(wg is not runner or we is None for (wg, we) in drops):
+                        raise AnalysisBroken("%s: the spawn decision reads %s (`%s`), but where the worker lowers it relative to the destruction of the task object was not recognised" % (nm, last(n), show(c)[:80]))
+                    early = [we for (wg, we) in drops if not any(elem_dominates(runner, x, we) for x in rel)]
+                    r.instance()
+                    if early:
+                        r.fail(g, at if at is not None else se, "spawn decided by an idleness estimate: %s" % nm,
+                               "%s: after the task was queued, spawnWorker() is called only if `%s` is %s (line %s) — an estimate of idle workers from %s, which the worker loop lowers at line %s, "
+                               "BEFORE the finished task object is destroyed (line %s).  A worker that is still running the destructors of a finished task's captures counts as free: a task submitted from such a "
+                               "destructor is accepted, gets no new worker although `_threads.size() < _maxSize` holds, and notify_one() wakes nobody — if the destructor waits for it, the accepted task never runs" % (
+                                   short(f.name), show(c)[:110], "true" if t else "false", c.get("l") or getattr(at, "line", "?"), last(n), early[0].line, rel[0].line))
+                    else:
+                        raise AnalysisBroken("%s: the spawn decision after the push contains the idleness estimate `%s` over %s (lowered by the worker only after the task object is destroyed): "
+                                             "whether an accepted task still gets a worker under such an estimate is not modelled by this rule" % (nm, show(c)[:80], last(n)))
+                continue
+            if not est and state_only(c):
+                r.instance()
+                r.ok("%s: spawn also conditioned on the pool state `%s`" % (nm, show(c)[:40]))
+                continue
+            raise AnalysisBroken("%s: the spawnWorker() call after the push also depends on `%s` (%s), which is neither the capacity test, a shutdown/accepting-state test, nor a worker counter this rule can judge" % (
+                nm, show(c)[:80], short(g.name)))
+        r.ok("%s: after the push the spawn depends on `_threads.size() < _maxSize` only" % nm)
+
+
 def run(ctx, ck):
     ck.run_rule("C09-R1", "lock table of the pool", "A1 guarded-by", lambda r: r1(ctx, r))
     ck.run_rule("C09-R2", "acceptance is atomic with the shutdown and queue-limit tests", "A5 + A1, sibling", lambda r: r2(ctx, r))
@@ -1320,4 +1574,5 @@ def run(ctx, ck):
     ck.run_rule("C09-R9", "refusals have a closed set of reasons; an accepted task always gets a worker and a wake-up", "A2 dominance + closed table", lambda r: r9(ctx, r))
     ck.run_rule("C09-R10", "initial workers bounded by the maximum; a second shutdown() waits for the first", "A10 exact evaluation of the constructor's initialisers + A2 barrier search", lambda r: r10(ctx, r))
     ck.run_rule("C09-R11", "workers are created only after the creating function cleared the shutdown flag", "A5 over the function's own stores/tests of the flag + A2", lambda r: r11(ctx, r))
+    ck.run_rule("C09-R12", "after the push the spawn decision is the capacity test only; idleness estimates are judged against the worker's counter updates", "A2 dominance + dataflow from push to spawn, sibling: worker bookkeeping", lambda r: r12(ctx, r))
     ck.run_rule("C09-R8", "condition-variable discipline for the worker wait", "A1", lambda r: r8(ctx, r))
